@@ -25,6 +25,67 @@ use crate::{panic_sig, take_panic, CaseCx, Out, Prop, Tier};
 #[derive(Default)]
 pub struct C11 {
     bombs_done: bool,
+    boundary_done: bool,
+}
+
+/// A valid machine whose bincode encoding has exactly `target` bytes (the documented limit and its
+/// neighbours): many states with random parameters, then filler states of 16 / 19 / 22 / 27 bytes.
+fn machine_of_exact_size(r: &mut Xo, target: u64) -> Option<Machine> {
+    use enum_map::enum_map;
+    use maybenot::action::{Action, Timer};
+    use maybenot::event::Event;
+    use maybenot::state::{State, Trans};
+    let mut m = big_machine(r, 1200);
+    let filler = |size: u64| -> State {
+        match size {
+            16 => State::new(enum_map! { _ => vec![] }),
+            19 => {
+                let mut s = State::new(enum_map! { _ => vec![] });
+                s.action = Some(Action::Cancel { timer: Timer::All });
+                s
+            }
+            22 => State::new(enum_map! { Event::NormalSent => vec![Trans(0, 1.0)], _ => vec![] }),
+            _ => State::new(enum_map! { Event::NormalSent => vec![Trans(0, 0.5), Trans(1, 0.5)], _ => vec![] }),
+        }
+    };
+    // bulk: 16-byte states until close to the target
+    loop {
+        let size = bincode_size(&m);
+        if size + 4096 >= target {
+            break;
+        }
+        let n = ((target - size - 2048) / 16).min(20_000);
+        for _ in 0..n {
+            m.states.push(filler(16));
+        }
+    }
+    // exact: fill the remainder with a combination of fillers whose encoded sizes are measured
+    let kinds = [16u64, 19, 22, 27];
+    let base = bincode_size(&m);
+    let mut delta = [0u64; 4];
+    for (i, k) in kinds.iter().enumerate() {
+        m.states.push(filler(*k));
+        delta[i] = bincode_size(&m) - base;
+        m.states.pop();
+    }
+    let mut reach = [false; 600];
+    reach[0] = true;
+    for v in 1..600usize {
+        reach[v] = delta.iter().any(|c| v as u64 >= *c && reach[v - *c as usize]);
+    }
+    for _ in 0..4000 {
+        let size = bincode_size(&m);
+        if size == target {
+            return if m.validate().is_ok() { Some(m) } else { None };
+        }
+        if size > target {
+            return None;
+        }
+        let diff = target - size;
+        let pick = if diff >= 600 { Some(0usize) } else { (0..4).rev().find(|i| diff >= delta[*i] && reach[(diff - delta[*i]) as usize]) };
+        m.states.push(filler(kinds[pick?]));
+    }
+    None
 }
 
 const MIB: usize = 1 << 20;
@@ -421,6 +482,23 @@ impl Prop for C11 {
                     json!({"bombs": format!("{residuals:?}")}),
                 );
                 return;
+            }
+        }
+        // machines at the documented size limit: exactly 1 MiB and one byte less (once per run)
+        if !self.boundary_done && (cx.shard == 2 % cx.nshards) {
+            self.boundary_done = true;
+            for target in [MIB as u64, MIB as u64 - 1, MIB as u64 - 2] {
+                match machine_of_exact_size(&mut r, target) {
+                    Some(m) => {
+                        out.evaluations += 1;
+                        out.bump("round_trips_at_the_size_limit");
+                        if let Err((sig, msg)) = round_trip(&mut r, &m, out) {
+                            out.violation(sig, format!("machine with an encoding of exactly {target} bytes (limit {MIB}): {msg}"), json!({"states": m.states.len(), "bincode_bytes": target}));
+                            return;
+                        }
+                    }
+                    None => out.bump("size_limit_machines_not_constructed"),
+                }
             }
         }
         // a valid machine: mostly small, sometimes large and incompressible
